@@ -81,3 +81,11 @@ Theorem C05_flushed_storage_and_delegation_survive_revert_refuted :
   nth 3 (b_deleg (model_obs w_k3_storage_and_delegate_reverted)) 0 = 100.
 Proof. exact k3_storage_refuted. Qed.
 Print Assumptions C05_flushed_storage_and_delegation_survive_revert_refuted.
+
+(** The same for an ICS-20 transfer made in a frame that then reverts: the coins stay escrowed. *)
+Theorem C05_ibc_transfer_survives_revert_refuted :
+  model_obs w_k3c_transfer_reverted = impl_obs w_k3c_transfer_reverted /\
+  b_ok (model_obs w_k3c_transfer_reverted) = true /\
+  nth 13 (b_bal (model_obs w_k3c_transfer_reverted)) 0 = 100.
+Proof. exact k3c_refuted. Qed.
+Print Assumptions C05_ibc_transfer_survives_revert_refuted.
